@@ -171,8 +171,19 @@ def run_invariants(ctx: Ctx):
         return
     runs = stores = 0
     bad = {"OkStoreC": 0, "Chains": 0, "Acyclic": 0}
-    for o in outs:
+    infer_idx = [i for i, l in enumerate(ctx.lines) if l.startswith("(infer ")]
+    for k, o in enumerate(outs):
         parts = o.split()
+        if len(parts) == 5 and parts[0] == "inv":
+            # the verified monitor of C03's last clause on the model's final store (exact on resolved records: C03e_monitor_exact_partial)
+            ctx.stats["elim_records_resolved"] = ctx.stats.get("elim_records_resolved", 0) + int(parts[3])
+            ctx.stats["elim_records_monitor_accepts"] = ctx.stats.get("elim_records_monitor_accepts", 0) + int(parts[4])
+            if int(parts[4]) < int(parts[3]) and ctx.prop_id == "C03" and k < len(infer_idx):
+                i = infer_idx[k]
+                cj = ctx.expect[i][2] if len(ctx.expect[i]) > 2 else {}
+                ctx.fail(f"the model's final store has a resolved elimination record none of whose alternatives is above the reference (monitor elimHoldsB): {ctx.lines[i][:300]}",
+                    {"check": "elim-monitor"}, cj if isinstance(cj, dict) else {"line": ctx.lines[i]}, lines=[ctx.lines[i]])
+            parts = parts[:3]
         if len(parts) == 3 and parts[0] == "inv":
             runs += 1
             stores += int(parts[1])
